@@ -79,18 +79,21 @@ class UploadHandler(RequestHandlerBase):
             return self.return_error(str(cfe))
         return self.save_file(blob_info, current_stream)
 
-    def return_error(self, error: str) -> flask.Response:
+    def return_error(self, error: str, status: int = 200) -> flask.Response:
         logging.warning('Upload error: %s', error)
         if is_ajax():
             result = {"error": error}
-            return jsonify(result)
+            return jsonify(result, status=status)
         flask.flash(error)
         return flask.redirect(flask.url_for('list-streams'))
 
     def save_file(self, file_upload: FileStorage,
                   stream: models.Stream) -> flask.Response:
         logging.debug("File %s uploaded", file_upload.filename)
-        mf = stream.add_file(file_upload, commit=True)
+        try:
+            mf = stream.add_file(file_upload, commit=True)
+        except ValueError as err:
+            return self.return_error(str(err), status=409)
         result = mf.toJSON()
         result['blob']['created'] = datetime.datetime.now()
         logging.debug("upload done %s", mf.name)
